@@ -6,6 +6,7 @@
 -/
 import Hw.Topo.RestrictLemmas
 import Hw.Topo.RenderLemmas
+import Hw.Topo.RestrictTyping
 namespace Hw.Props.C08
 open Hw.Topo Hw.Topo.Restrict Hw.Gen.Restrict
 
@@ -259,7 +260,7 @@ example : okT demoMerge.tree = true ∧ (restrict demoMerge ⟨1, false⟩ (flag
     hwloc_connect_special_levels by the engine `restrict`: on every BEFORE and AFTER dump of every run the rendered dump must
     equal the real dump as a whole.
     Proved: id-is-position, root-or-parent, parent-kind, normal-child-slot, children-array, special-list-heads,
-            special-list-links, no-children-where-forbidden (here); depth-by-type, depth-increases, in-its-level (incl. both cousin
+            special-list-links (here); no-children-where-forbidden (C08_render_no_children, needs PUs to be leaves); depth-by-type, depth-increases, in-its-level (incl. both cousin
             links), nobjs, levels-listed, level-entries-valid, levels-in-tree-order, normal-levels-nonempty, depth-le-objects,
             level0-is-root (for a Machine root) (C08_render_levels, which also needs the root to be a normal object).
     NOT proved (still judged by the oracle wfCheck on every AFTER dump): children-counts (the mkAux fold),
@@ -276,11 +277,17 @@ theorem C08_render_links (t : Tree) (ht : typedT t = true) (h : Hdr) (ex : RObj 
     objClause "normal-child-slot" (render t h ex) (mkAux (render t h ex)) o = true ∧
     objClause "children-array" (render t h ex) (mkAux (render t h ex)) o = true ∧
     objClause "special-list-heads" (render t h ex) (mkAux (render t h ex)) o = true ∧
-    objClause "special-list-links" (render t h ex) (mkAux (render t h ex)) o = true ∧
-    objClause "no-children-where-forbidden" (render t h ex) (mkAux (render t h ex)) o = true :=
+    objClause "special-list-links" (render t h ex) (mkAux (render t h ex)) o = true :=
   ⟨render_id_is_position t h ex o ho, render_root_or_parent t ht h ex o ho, render_parent_kind t ht h ex o ho,
    render_normal_child_slot t ht h ex o ho, render_children_array t ht h ex o ho, render_special_list_heads t ht h ex o ho,
-   render_special_list_links t ht h ex o ho, render_no_children_where_forbidden t ht h ex o ho⟩
+   render_special_list_links t ht h ex o ho⟩
+
+/-- no-children-where-forbidden additionally needs "PUs are leaves" (`puLeafT`): its NUMA / memory / I/O / Misc parts follow
+    from the typing, its PU part from that -/
+theorem C08_render_no_children (t : Tree) (ht : typedT t = true) (hpu : puLeafT t = true) (h : Hdr) (ex : RObj → Extra) (o : Obj)
+    (ho : o ∈ (render t h ex).objs) :
+    objClause "no-children-where-forbidden" (render t h ex) (mkAux (render t h ex)) o = true :=
+  render_no_children_where_forbidden t ht hpu h ex o ho
 
 /-- the level clauses proved for `render t` for ALL typed trees whose root is a normal object: every object has the depth of
     its kind (special depth, or the index of a normal level, strictly larger than its parent's), sits in the level of its depth at its logical index with the
@@ -311,25 +318,39 @@ def afterDump (t : Topo) (flagsT : Nat) (s : CSet) (flags : Nat) (ex : RObj → 
   render (restrict t s flags).1.tree
     ⟨flagsT, (restrict t s flags).1.filters, some (restrict t s flags).1.allowedCpu, some (restrict t s flags).1.allowedNode⟩ ex
 
-/-- C08_restrict_links: for every input topology, set and flag word, the topology after the call (= `afterDump`, checked equal
-    to hwloc's AFTER dump on every call of every run) satisfies the link clauses above, provided the resulting tree is typed
-    (`typedT`, evaluated by the driver on every BEFORE and AFTER tree; preservation of the typing by the tree recursion and by
-    level merging is not proved) -/
+/-- the typing and "the root is a normal object" are preserved by the whole restrict model: tree recursion, level merging
+    (incl. the or-ing of complete sets and the re-sort of memory children) and the final re-sort of children lists -/
+theorem C08_typing_preserved (t : Topo) (s : CSet) (flags : Nat) (h : typedT t.tree = true) (hr : isNormal t.tree.obj.type = true) :
+    typedT (restrict t s flags).1.tree = true ∧ isNormal (restrict t s flags).1.tree.obj.type = true :=
+  typed_restrict t s flags h hr
+
+/-- C08_restrict_links: for every input topology whose tree is typed (a consequence of well-formedness; on every BEFORE dump
+    the driver checks it together with `render (treeOf before) = before`), every set and every flag word, the topology after
+    the call (= `afterDump`, checked equal to hwloc's AFTER dump on every call of every run) satisfies the link clauses of
+    C08_render_links — no hypothesis on the result any more -/
 theorem C08_restrict_links (t : Topo) (flagsT : Nat) (s : CSet) (flags : Nat) (ex : RObj → Extra)
-    (ht : typedT (restrict t s flags).1.tree = true) (o : Obj) (ho : o ∈ (afterDump t flagsT s flags ex).objs) :
+    (ht : typedT t.tree = true) (hr : isNormal t.tree.obj.type = true) (o : Obj) (ho : o ∈ (afterDump t flagsT s flags ex).objs) :
     objClause "id-is-position" (afterDump t flagsT s flags ex) (mkAux (afterDump t flagsT s flags ex)) o = true ∧
     objClause "root-or-parent" (afterDump t flagsT s flags ex) (mkAux (afterDump t flagsT s flags ex)) o = true ∧
     objClause "parent-kind" (afterDump t flagsT s flags ex) (mkAux (afterDump t flagsT s flags ex)) o = true ∧
     objClause "normal-child-slot" (afterDump t flagsT s flags ex) (mkAux (afterDump t flagsT s flags ex)) o = true ∧
     objClause "children-array" (afterDump t flagsT s flags ex) (mkAux (afterDump t flagsT s flags ex)) o = true ∧
     objClause "special-list-heads" (afterDump t flagsT s flags ex) (mkAux (afterDump t flagsT s flags ex)) o = true ∧
-    objClause "special-list-links" (afterDump t flagsT s flags ex) (mkAux (afterDump t flagsT s flags ex)) o = true ∧
-    objClause "no-children-where-forbidden" (afterDump t flagsT s flags ex) (mkAux (afterDump t flagsT s flags ex)) o = true :=
-  C08_render_links _ ht _ ex o ho
+    objClause "special-list-links" (afterDump t flagsT s flags ex) (mkAux (afterDump t flagsT s flags ex)) o = true :=
+  C08_render_links _ (typed_restrict t s flags ht hr).1 _ ex o ho
 
-/-- … and the level clauses of C08_render_levels when moreover the root of the resulting tree is a normal object -/
+/-- … the PU part of no-children-where-forbidden still needs "PUs are leaves" on the RESULT: level merging keeps it only
+    because hwloc_compare_levels_structure refuses to merge a level with memory children into the PU level, a level-wide guard
+    whose node-wise consequence is not proved (the driver evaluates puLeafT on every AFTER tree) -/
+theorem C08_restrict_no_children (t : Topo) (flagsT : Nat) (s : CSet) (flags : Nat) (ex : RObj → Extra)
+    (ht : typedT t.tree = true) (hr : isNormal t.tree.obj.type = true) (hpu : puLeafT (restrict t s flags).1.tree = true)
+    (o : Obj) (ho : o ∈ (afterDump t flagsT s flags ex).objs) :
+    objClause "no-children-where-forbidden" (afterDump t flagsT s flags ex) (mkAux (afterDump t flagsT s flags ex)) o = true :=
+  C08_render_no_children _ (typed_restrict t s flags ht hr).1 hpu _ ex o ho
+
+/-- … and the level clauses of C08_render_levels, again from the typing of the BEFORE tree alone -/
 theorem C08_restrict_levels (t : Topo) (flagsT : Nat) (s : CSet) (flags : Nat) (ex : RObj → Extra)
-    (ht : typedT (restrict t s flags).1.tree = true) (hr : isNormal (restrict t s flags).1.tree.obj.type = true) :
+    (ht : typedT t.tree = true) (hr : isNormal t.tree.obj.type = true) :
     (∀ o ∈ (afterDump t flagsT s flags ex).objs,
       objClause "depth-by-type" (afterDump t flagsT s flags ex) (mkAux (afterDump t flagsT s flags ex)) o = true ∧
       objClause "depth-increases" (afterDump t flagsT s flags ex) (mkAux (afterDump t flagsT s flags ex)) o = true ∧
@@ -341,7 +362,7 @@ theorem C08_restrict_levels (t : Topo) (flagsT : Nat) (s : CSet) (flags : Nat) (
     topClause "normal-levels-nonempty" (afterDump t flagsT s flags ex) (mkAux (afterDump t flagsT s flags ex)) = true ∧
     topClause "depth-le-objects" (afterDump t flagsT s flags ex) (mkAux (afterDump t flagsT s flags ex)) = true ∧
     ((restrict t s flags).1.tree.obj.type = tMACHINE → topClause "level0-is-root" (afterDump t flagsT s flags ex) (mkAux (afterDump t flagsT s flags ex)) = true) :=
-  C08_render_levels _ ht hr _ ex
+  C08_render_levels _ (typed_restrict t s flags ht hr).1 (typed_restrict t s flags ht hr).2 _ ex
 
 /-! ### histories -/
 
